@@ -83,6 +83,7 @@ def run_rounds(sc, root, helper):
             # attempts start one after the other, and every directory answer but the first takes its time:
             # a sibling completes POSTs (consuming nonces) while another attempt's directory request is open
             rules = [{"kind": "directory", "from": 1, "times": 10 ** 6, "answer": {"process": True, "delay_ms": 350}}]
+            opts["nonce_on_get"] = False       # (a GET answer with a fresh nonce would paper over a stale one)
         ca = mockca.MockCA(helper, rules=rules, opts=opts)
         ca.o["delay_ms"] = 0
         ca.rand_delay = sc["delay"]
